@@ -20,6 +20,9 @@ def check(ctx):
     # the input x is the first channel and the output y the second for every accepted layout of the two-channel record (2xN, Nx2, 2x2, list)
     from ..inputs import check_record
     check_record(ctx, rule_s=None, rule_r="R4-channel-routing", rule_c=None)
+    # the two channels are transformed from their own samples: no gather buffer is refilled with one channel while the other channel's block in it is in use
+    from ..effects import check_scratch_reuse
+    check_scratch_reuse(ctx, rule="R5-channel-buffers-not-clobbered")
     table_purity(ctx, cells=("Hxy", "tf", "Hyx", "cf", "cf_rad", "cf_deg", "cf_db", "coh", "Gxy"), T=T)
     ctx.trust("L1/L2 (DFT convention of the Goertzel / direct forms)", "E4 table", "E5 kernels")
     ctx.assume("exact arithmetic", "for y[n]=x[n-d]: V_y = e^{-i w d} V_x up to the d/L edge effect, hence conj(X)Y/|X|^2 has phase -w d")
